@@ -329,3 +329,182 @@ func FieldAlphabet(f *Field, reduced bool) []*V {
 	}
 	return a
 }
+
+// Rich is a value of t in which every optional and defaulted field is set, arrays have two
+// items, maps two entries and unions hold their first record member (else the first member).
+func Rich(t *Type) *V {
+	switch t.Kind {
+	case Record:
+		v := VRec(t, map[string]*V{})
+		for _, f := range t.AllFields() {
+			v.Fields[f.Name] = Rich(f.Type)
+		}
+		return v
+	case Union:
+		for _, m := range t.Members {
+			if m.Type.Kind == Record {
+				return VUnion(t, m.Alias, Rich(m.Type))
+			}
+		}
+		return VUnion(t, t.Members[0].Alias, Rich(t.Members[0].Type))
+	case Array:
+		return VArr(t, Rich(t.Elem), Rich(t.Elem))
+	case Map:
+		return VMap(t, "k1", Rich(t.Elem), "k2", Rich(t.Elem))
+	case Typeref:
+		v := Rich(t.Elem)
+		v.T = t
+		return v
+	}
+	return Base(t)
+}
+
+// Pos is a record-field position inside a value: Path is the list of segments leading to the
+// record (field names, "[i]", map keys, union aliases), Field the field of that record.
+type Pos struct {
+	Path  []string
+	Field *Field
+}
+
+// String renders the position in the library's missing-field path syntax.
+func (p Pos) String() string { return JoinPath(append(append([]string{}, p.Path...), p.Field.Name)) }
+
+func JoinPath(segs []string) string {
+	out := ""
+	for i, s := range segs {
+		if i > 0 && !(len(s) > 0 && s[0] == '[') {
+			out += "."
+		}
+		out += s
+	}
+	return out
+}
+
+// Positions lists every record-field position present in v (depth first, document order).
+func Positions(v *V) []Pos {
+	var out []Pos
+	var walk func(v *V, path []string)
+	walk = func(v *V, path []string) {
+		if v == nil {
+			return
+		}
+		switch v.T.Base().Kind {
+		case Record:
+			for _, f := range v.T.AllFields() {
+				fv := v.Fields[f.Name]
+				if fv == nil {
+					continue
+				}
+				out = append(out, Pos{append([]string{}, path...), f})
+				walk(fv, append(append([]string{}, path...), f.Name))
+			}
+		case Union:
+			if v.Alias != "" {
+				walk(v.Mem, append(append([]string{}, path...), v.Alias))
+			}
+		case Array:
+			for i, it := range v.Items {
+				walk(it, append(append([]string{}, path...), "["+itoa(i)+"]"))
+			}
+		case Map:
+			for _, k := range v.Keys {
+				walk(v.Ent[k], append(append([]string{}, path...), k))
+			}
+		}
+	}
+	walk(v, nil)
+	return out
+}
+
+func itoa(i int) string { return strconv.Itoa(i) }
+
+// Edit returns a copy of v in which the record field at position p is replaced by repl
+// (nil = deleted). It returns nil if the position does not exist in v.
+func Edit(v *V, p Pos, repl func(old *V) *V) *V {
+	var rec func(v *V, path []string) *V
+	rec = func(v *V, path []string) *V {
+		if v == nil {
+			return nil
+		}
+		c := v.Clone()
+		if len(path) == 0 {
+			if c.T.Base().Kind != Record || c.Fields[p.Field.Name] == nil {
+				return nil
+			}
+			n := repl(c.Fields[p.Field.Name])
+			if n == nil {
+				delete(c.Fields, p.Field.Name)
+			} else {
+				c.Fields[p.Field.Name] = n
+			}
+			return c
+		}
+		seg := path[0]
+		switch c.T.Base().Kind {
+		case Record:
+			ch := rec(c.Fields[seg], path[1:])
+			if ch == nil {
+				return nil
+			}
+			c.Fields[seg] = ch
+		case Union:
+			if c.Alias != seg {
+				return nil
+			}
+			ch := rec(c.Mem, path[1:])
+			if ch == nil {
+				return nil
+			}
+			c.Mem = ch
+		case Array:
+			i, err := strconv.Atoi(seg[1 : len(seg)-1])
+			if err != nil || i >= len(c.Items) {
+				return nil
+			}
+			ch := rec(c.Items[i], path[1:])
+			if ch == nil {
+				return nil
+			}
+			c.Items[i] = ch
+		case Map:
+			ch := rec(c.Ent[seg], path[1:])
+			if ch == nil {
+				return nil
+			}
+			c.Ent[seg] = ch
+		default:
+			return nil
+		}
+		return c
+	}
+	return rec(v, p.Path)
+}
+
+// At returns the value at a full path (segments as in Pos.Path plus field names).
+func At(v *V, path []string) *V {
+	for _, seg := range path {
+		if v == nil {
+			return nil
+		}
+		switch v.T.Base().Kind {
+		case Record:
+			v = v.Fields[seg]
+		case Union:
+			if v.Alias != seg {
+				return nil
+			}
+			v = v.Mem
+		case Array:
+			i, err := strconv.Atoi(seg[1 : len(seg)-1])
+			if err != nil || i >= len(v.Items) {
+				return nil
+			}
+			v = v.Items[i]
+		case Map:
+			v = v.Ent[seg]
+		default:
+			return nil
+		}
+	}
+	return v
+}
